@@ -86,6 +86,24 @@ func main() {
 	}
 	rec(nil, 0)
 
+	// 1b. directed: a prefix reaching each state (string states also with a body), then
+	// every 7-bit byte and a few multi-byte runes, then a suffix that shows where we are
+	prefixes := []string{"", "\x1b", "\x1b ", "\x1b[", "\x1b[1", "\x1b[ ", "\x1b[1<", "\x1bP", "\x1bP1", "\x1bP ",
+		"\x1bPq", "\x1bPqa", "\x1bP:", "\x1bP:a", "\x1b]", "\x1b]a", "\x1bX", "\x1bXa", "\x1b_", "\x1b_a", "\x1bO",
+		"\x1b]a\x1b", "\x1b]\x1b"}
+	var mids [][]byte
+	for b := 0; b < 0x80; b++ {
+		mids = append(mids, []byte{byte(b)})
+	}
+	mids = append(mids, []byte("é"), []byte{0xff}, []byte{0xef, 0xbf, 0xbd}, []byte{0x80})
+	for _, pre := range prefixes {
+		for _, mid := range mids {
+			for _, suf := range []string{"", ";1 m\x1b\\x"} {
+				try([]byte(pre+string(mid)+suf), "state-rune", true)
+			}
+		}
+	}
+
 	// 2. grammar-generated
 	n := 1500
 	if cfg.Thorough() {
@@ -119,7 +137,7 @@ func main() {
 		}
 		try(b, "random", true)
 	}
-	cfg.Write("C02", "byte streams: all strings up to length 3 (quick) / 4 (thorough) over one representative per byte class of the state machine; grammar-generated concatenations of CSI/OSC/DCS/APC/SS3/ESC/SOS-PM sequences with random parameters (empty, 0, huge, overflowing), intermediates, payloads, embedded C0, CAN/SUB/ESC cancels, empty-bodied strings; raw random bytes. Each stream is parsed under 3 read chunkings (all at once, byte by byte, random); one case per distinct canonical observation. non-trivial = longer than one symbol",
+	cfg.Write("C02", "byte streams: all strings up to length 3 (quick) / 4 (thorough) over one representative per byte class of the state machine; directed state x rune cases (a prefix reaching each of the 16 states, every 7-bit byte and some multi-byte runes, two suffixes); grammar-generated concatenations of CSI/OSC/DCS/APC/SS3/ESC/SOS-PM sequences with random parameters (empty, 0, huge, overflowing), intermediates, payloads, embedded C0, CAN/SUB/ESC cancels, empty-bodied strings; raw random bytes. Each stream is parsed under 3 read chunkings (all at once, byte by byte, random); one case per distinct canonical observation. non-trivial = longer than one symbol",
 		[]*hx.Stream{s}, map[string]interface{}{"parser_runs": runs, "chunking_disagreements": chunkDisagreements,
 			"print_cluster_problems": clusterProblems}, direct)
 }
